@@ -6,7 +6,6 @@ import (
 	"fmt"
 
 	"filippo.io/sunlight/internal/ctlog"
-	"filippo.io/sunlight/internal/verifsim/core"
 	"filippo.io/sunlight/internal/verifsim/ref"
 	ct "github.com/google/certificate-transparency-go"
 	cttls "github.com/google/certificate-transparency-go/tls"
@@ -52,9 +51,6 @@ func (o *oracle) checkReload(in *Instance) {
 	o.w.sim.Probe("reload.ok")
 }
 
-func (o *oracle) expectRefusal() bool { return false }
-
-func (w *World) epilogueRefusal(in *Instance) {}
 
 // checkOutcome is the admission-control oracle for one finished submission.
 func (o *oracle) checkOutcome(in *Instance, s *Submission) {
@@ -154,8 +150,59 @@ type sctRec struct {
 	epoch int
 }
 
-func (w *World) extraEnabled() []core.WCmd { return nil }
-
-func (w *World) extraExec(c core.Cmd) bool { return false }
 
 var _ = sha256.Sum256
+
+// checkAdmission is the C07 admission rule, evaluated right after a submit
+// step: an entry that is pending, in sequencing or acknowledged in the current
+// cache epoch is never admitted as a new leaf.
+func (o *oracle) checkAdmission(in *Instance, s *Submission) {
+	if s.Source == "" {
+		return
+	}
+	for _, e := range o.w.subs {
+		if e == s || e.Item.Key != s.Item.Key || e.Inst != s.Inst || e.prefill {
+			continue
+		}
+		if e.Done && e.Err == nil && e.cacheEpoch == s.cacheEpoch {
+			if s.Source == "sequencer" || s.Source == "ratelimit" {
+				o.v("C07", "readmitted-after-ack", "sub %d of item %d got source %q although sub %d was acknowledged in the same cache epoch", s.ID, s.Item.ID, s.Source, e.ID)
+			}
+			return
+		}
+	}
+	for _, e := range o.w.subs {
+		if e == s || e.Item.Key != s.Item.Key || e.Inst != s.Inst || e.Inc != s.Inc {
+			continue
+		}
+		if !e.Done && e.Source == "sequencer" && e.ID < s.ID {
+			if s.Source != "pool" {
+				o.v("C07", "readmitted-while-pending", "sub %d of item %d got source %q while sub %d is pending", s.ID, s.Item.ID, s.Source, e.ID)
+			}
+			return
+		}
+	}
+}
+
+// checkStops: after the sequencer stopped nobody is left waiting, and an
+// instance that lost a CAS stopped with the fatal error (C17, C06).
+func (o *oracle) checkStops() {
+	w := o.w
+	for _, in := range w.insts {
+		if in.dead {
+			continue
+		}
+		if in.state == stStopped {
+			if n := w.unfinished(in); n > 0 {
+				o.v("C17", "stranded-after-stop", "i%d.%d: %d submissions still waiting after the sequencer stopped", in.idx, in.inc, n)
+			}
+		}
+		k := [2]int{in.idx, in.inc}
+		if o.casPending[k] {
+			delete(o.casPending, k)
+			if in.state != stStopped || !errors.Is(in.seqErr, ctlog.VerifErrFatal) {
+				o.v("C06", "cas-loss-not-fatal", "i%d.%d lost a compare-and-swap but its sequencer did not stop with the fatal error (state %s, err %v)", in.idx, in.inc, in.state, in.seqErr)
+			}
+		}
+	}
+}
